@@ -235,6 +235,9 @@ func (m *Macaroon) Add(caveats ...Caveat) error {
 			caveat = &c3p
 
 			// encrypt RN under the tail hmac so we can recover it during verification
+			if len(m.Tail) != EncryptionKeySize {
+				return fmt.Errorf("m.add: bad tail size: have %d, need %d", len(m.Tail), EncryptionKeySize)
+			}
 			c3p.VerifierKey = seal(EncryptionKey(m.Tail), c3p.rn)
 
 			if seen3P[c3p.Location] {
